@@ -213,6 +213,14 @@ func (fr *Frame) callInner(in ssa.Instruction, cc *ssa.CallCommon, res ssa.Value
 			for _, a := range cc.Args {
 				fr.val(a)
 			}
+			if pv, ok := cc.Value.(*ssa.Parameter); ok && !fr.inlined && fr.contract != nil && fr.contract.Callbacks[pv.Name()] {
+				// declared callback: assumed not to write the heap; its result is arbitrary
+				fr.x.trust("A-CALLBACK: calls through parameter " + pv.Name() + " assumed not to write the heap")
+				if rt != nil && !isEmptyTuple(rt) {
+					fr.setResult(res, fr.freshVal("cb", rt))
+				}
+				return
+			}
 			fr.unknownCall("call through function value "+cc.Value.Name(), rt, res)
 			return
 		}
